@@ -127,6 +127,8 @@ impl Generator {
     /// - maintains type information for validation of subsequent opcodes
     pub(super) fn process_stack_ops(&mut self, opcode: OpcodeKind, arg_bytes: Option<&[u8]>) {
         use OpcodeKind::*;
+        #[cfg(feature = "verif")]
+        crate::verif::on_op(self, opcode);
 
         match opcode {
             Pop => {
